@@ -346,6 +346,19 @@ def net_prim(ctx: Ctx):
         out = []
         if isinstance(node, ast.Call) and arity_error(prog, res, node, fn) is not None:
             out.append(typeerror)      # the call fails before the callee runs (C09: an internal exception on a network path)
+        if isinstance(node, ast.Call):
+            # <object of a package class without __getitem__>[...]: TypeError (e.g. a ProtocolResponse indexed like its payload)
+            own = [node.func] + list(node.args) + [k.value for k in node.keywords]
+            for sub in [x for a in own for x in ast.walk(a) if isinstance(x, ast.Subscript) and isinstance(x.ctx, ast.Load)]:
+                if any(isinstance(y, ast.Call) and y is not node and any(z is sub for z in ast.walk(y)) for a in own for y in ast.walk(a)):
+                    continue      # belongs to an inner call, reported there
+                try:
+                    ts = res.expr_types(sub.value, fn)
+                except Exception:
+                    ts = []
+                if ts and all(t[0] == "inst" and isinstance(t[1], ClassInfo) and prog.find_method(t[1], "__getitem__") is None
+                              and not any(isinstance(b, str) for b in prog.mro(t[1])[1:] if b not in ("builtins.object", "abc.ABC")) for t in ts):
+                    out.append(typeerror)
         if isinstance(node, ast.Await):
             v = node.value
             c = chain(v)
